@@ -171,6 +171,10 @@ func VxH_MapOf_par2(opA, opB, tableLen, chain, minLen, mode, slots int) {
 func VxH_MapOf_par12(opA, opB1, opB2, tableLen, chain, minLen, mode, slots int) {
 	m, c := vxArbMapOf[int, int](tableLen, chain, minLen, slots, slots, VxIntHasher, vxIntKey, vxIntVal)
 	kA, kB1, kB2 := VxInt("kA"), VxInt("kB1"), VxInt("kB2")
+	if mode >= 10 {
+		VxAssume(kA == kB1 && kB1 == kB2)
+		mode -= 10
+	}
 	if mode >= 0 {
 		VxAssume(c.count() <= mode)
 	}
